@@ -932,14 +932,14 @@ pub fn main(args: &Args) -> ! {
                                         Some(mut c) => {
                                             let mut h = [0x5bu8; 20];
                                             h[..8].copy_from_slice(&(ns + k).to_be_bytes());
-                                            c.send_text(json!({"action": "scrape", "info_hash": id20(&h)}).to_string()) && c.recv_text(5000).is_some()
+                                            c.send_text(json!({"action": "scrape", "info_hash": id20(&h)}).to_string()) && c.recv_text(10_000).is_some()
                                         }
                                         None => false,
                                     }
                                 };
-                                if !alive(0) && !alive(1) && stopped.swap(1, Ordering::Relaxed) == 0 {
+                                if !alive(0) && !alive(1) && !alive(2) && !alive(3) && stopped.swap(1, Ordering::Relaxed) == 0 {
                                     let threads = proc_thread_states(trk.child.child.id());
-                                    viols.lock().unwrap().push(("ws/tracker-stopped-answering".to_string(), format!("{}: after {} consecutive failing paths the tracker does not answer a scrape on a fresh connection either (twice, 5 s each); process alive, threads: {:?}", trk.label, failing.load(Ordering::Relaxed), threads), json!({"path": path, "socket_workers": sw, "swarm_workers": wm, "conn_worker": pl.conn_worker, "torrent_worker": pl.torrent_worker})));
+                                    viols.lock().unwrap().push(("ws/tracker-stopped-answering".to_string(), format!("{}: after {} consecutive failing paths the tracker does not answer a scrape on a fresh connection either (four attempts, 10 s each); process alive, threads: {:?}", trk.label, failing.load(Ordering::Relaxed), threads), json!({"path": path, "socket_workers": sw, "swarm_workers": wm, "conn_worker": pl.conn_worker, "torrent_worker": pl.torrent_worker})));
                                 }
                             }
                         }
